@@ -342,6 +342,7 @@ class DesignBiZoned(DesignBase):
             flow_type=self.flow_type,
             disp=disp,
             field_type="bi-zoned",
+            load_years=self.load_years,
         )
 
 
